@@ -335,27 +335,13 @@ def _param_bounded(prog, iv, f, k):
 
 
 def _shrinking_slice(f, R, h, body):
-    """while !s.is_empty() { n = read(s)?; if n == 0 { break } s = &mut s[n..]; }"""
-    for n_, ds in f.defs().items():
-        whole = [d for d in ds if not d[4]["proj"] and d[2] in body]
-        for kind, payload, bi, si, place in whole:
-            if kind == "stmt":
-                t = strip(R.rvalue(payload))
-                if t[0] == "call" and t[1].endswith("::index_mut") and len(t[2]) == 2:
-                    r = strip(t[2][1])
-                    if r[0] == "agg" and r[1][0] == "adt" and r[1][2] == "RangeFrom":
-                        cnt = strip(r[2][0])
-                        if cnt[0] == "call" and (cnt[1].endswith("Read::read") or cnt[1].endswith("Write::write")):
-                            # the zero test leaves the loop
-                            for b2 in body:
-                                tt = f.blocks[b2]["term"]
-                                if tt["k"] == "switch":
-                                    dl = op_place(tt["discr"])
-                                    d = strip(R.place(dl)) if dl else None
-                                    if d and d[0] == "binop" and d[1] in ("Eq", "Ne") and 0 in (const_val(d[2]), const_val(d[3])):
-                                        e = switch_edges(f, b2)
-                                        if any(s not in body for s in e.values()):
-                                            return True
+    """while !s.is_empty() { n = read(s)?; if n == 0 { break } s = &mut s[n..]; }  (any spelling, see io_rules.short_transfer_loop)"""
+    import io_rules
+    for bi, t in f.calls(lambda c, t: io_rules._is_raw_transfer(c)):
+        if bi in body:
+            r = io_rules.short_transfer_loop(f, bi)
+            if r["propagated"] and r["zero_exit"] and r["advance"]:
+                return True
     return False
 
 
